@@ -161,7 +161,7 @@ func c05RulesBase(tier string) []Rule {
 			rs = append(rs, core.InstrPresent(w, id, "PROV", "(*disr.EmptinessValidator).Validate", `^store \$2\.Candidates = \(\*disr\.EmptinessValidator\)\.validateCandidates\(\$0, \$2\.Candidates\)#0$`, 1, "the validated command carries only validated candidates")...)
 			return rs
 		}},
-		MPT{ID: "C05.POST1", Fn: isv, Ret: core.RetNilConst, Gates: gates(
+		MPT{ID: "C05.POST1", Fn: isv, Ret: core.RetOK, Gates: gates(
 			G(`+^\(\*disr\.ConsolidationValidator\)\.validateCandidates\(\$0, \$2\.Candidates\)#1 == nil$`),
 			G(`+^\(\*disr\.validation\)\.validateCommand\(\$0\.validation, \$2, \(\*disr\.ConsolidationValidator\)\.validateCandidates\(\$0, \$2\.Candidates\)#0\) == nil$`),
 			G(`+^\(\*disr\.ConsolidationValidator\)\.validateCandidates\(\$0, \(\*disr\.ConsolidationValidator\)\.validateCandidates\(\$0, \$2\.Candidates\)#0\)#1 == nil$`),
